@@ -19,7 +19,7 @@ MANIFEST = dict(
          "TLC checks ItemsInOrder, EndsWithError, GenSeesCreation, ConsumerIntact, StreamScopeCompletes; every edge is "
          "replayed into real streams, the generator double yielding what it observes itself and the consumer "
          "re-probing its own context after every step. (Until the repair of ctx.stream - fix #21 - the module carried "
-         "deviation actions for five known findings; they are gone, any deviation is a violation now.)",
+         "deviation actions for five known findings; they are gone, any deviation is a violation now.) Also: streams made outside every scope (empty context), pulls that are requested and never run (Dangle), generators that spawn tasks and that handle a cancellation thrown into them.",
     technique="TLA+ spec + TLC exhaustive model checking; edge-complete graph replay into the implementation through "
               "the gated interpreter",
     design="5/C11")
